@@ -12,7 +12,9 @@ pub static DEF: PropDef = PropDef {
     level: "exploration",
     rule: "inputs D: raw DEFLATE from zlib / zlib-ng / libdeflate / miniz_oxide over structured random \
 plaintexts (all levels, strategies, window and memory settings, mid-stream flushes and parameter switches), \
-valid streams from an independent generator using the format's unused freedoms, mutations of both, noise. \
+valid streams from an independent generator using the format's unused freedoms, mutations of both, noise; plus a \
+deterministic family of 600 (thorough 6000) single-block streams with optimal dyadic codes whose run-length coded header has \
+a repeat item running from the literal/length lengths into the distance lengths. \
 Oracle per D: (a) verify=false and verify=true give the same Ok/Err status and, if Ok, the same (plain_text, \
 corrections, compressed_size); (b) recompress_deflate_stream(plain, corrections) == D[..compressed_size]; \
 (c) D[..size] alone and D[..size]+tail for two generated tails give the same triple. \
@@ -234,6 +236,29 @@ fn worker(ctx: &mut Ctx) {
         shrink_iters: 300,
         stream: 0,
     };
+    // deterministic family: blocks with optimal (dyadic) codes whose header has a repeat item
+    // running from the literal/length lengths into the distance lengths
+    let nvar: u64 = match ctx.cfg.tier {
+        Tier::Quick => 600,
+        Tier::Thorough => 6000,
+    };
+    for v in 0..nvar {
+        if v % ctx.cfg.nshards as u64 != ctx.cfg.shard as u64 {
+            continue;
+        }
+        if let Some((stream, _plain, _desc)) = crate::gen_syn::boundary_run_stream(v) {
+            let tails = vec![vec![0xA5u8, 0x5A, 0xFF], vec![0u8]];
+            let doc = make_doc(&stream, &tails);
+            ctx.set_inflight(&doc);
+            let labels = vec!["syn:boundary-run(dyadic)".to_string()];
+            if let Err(f) = check(&stream, &tails, ctx, &labels) {
+                if !ctx.is_known(&f) {
+                    ctx.record_failure(&f, &doc);
+                }
+                break;
+            }
+        }
+    }
     if let Some((f, doc)) = run_dna(ctx, &run, eval_dna) {
         minimise_and_record(ctx, f, doc, 3000, |cand, doc, ctx| {
             check(cand, &doc_tails(doc), ctx, &[])
